@@ -60,7 +60,7 @@ Ltac k_split1 :=
   | |- context [Z.ltb ?a ?b] => destruct (Z.ltb_spec a b); try lia
   end.
 
-Ltac k_bool := cbv beta iota zeta delta [andb orb negb xorb Bool.eqb].
+Ltac k_bool := cbn [andb orb negb xorb Bool.eqb].
 
 Ltac k_finish :=
   k_bool;
@@ -69,7 +69,15 @@ Ltac k_finish :=
 
 Ltac k_splits := repeat (k_split1; k_bool).
 
-Ltac k_done := solve [k_finish].
+(* what is left of the booleans once every comparison is decided: list tests and variables *)
+Ltac k_bool_atoms :=
+  repeat match goal with
+         | |- context [forallb ?p ?l] => destruct (forallb p l)
+         | |- context [existsb ?p ?l] => destruct (existsb p l)
+         | b : bool |- _ => destruct b
+         end.
+
+Ltac k_done := solve [k_finish | k_bool_atoms; k_finish].
 
 (* straight-line kernels: no loop left in the goal *)
 Ltac k_arith := k_hyps; k_unfold_arith; k_wrap; k_splits; k_done.
@@ -78,7 +86,11 @@ Ltac k_arith := k_hyps; k_unfold_arith; k_wrap; k_splits; k_done.
    the rest of the goal must be stable under one iteration *)
 Ltac k_use_IH :=
   match goal with
-  | IH : _ |- _ => solve [apply IH; assumption | rewrite IH by assumption; k_finish | rewrite <- IH by assumption; k_finish]
+  | IH : _ |- _ =>
+      solve [ apply IH; assumption
+            | rewrite IH by assumption; k_done
+            | rewrite <- IH by assumption; k_done
+            | etransitivity; [apply IH; assumption|]; k_done ]
   end.
 
 Ltac k_loop_step names :=
@@ -95,3 +107,20 @@ Ltac k_induct names :=
 (* everything: comparisons outside the loops first, then each remaining goal by induction *)
 Ltac k_auto names :=
   k_hyps; k_unfold_arith; k_wrap; k_splits; first [k_done | k_induct names].
+
+(* a loop that updates variables: `spec` says, in the model's terms, what the loop does from an
+   arbitrary state: spec (model list) state = LDone state' / LReturn result.  Proved by induction
+   with the same splitting as everything else, then used to rewrite the goal. *)
+Ltac k_loop_spec spec names :=
+  match goal with
+  | |- context [range_loop ?body ?xs ?s0] =>
+      is_var xs;
+      match goal with
+      | |- context [map ?f xs] =>
+          let L := fresh "L" in
+          assert (L : forall s, range_loop body xs s = spec (map f xs) s);
+          [ induction xs as [|? ? IH]; intro; cbn [range_loop map existsb forallb];
+            [k_done | k_destruct_tuples; k_loop_step names]
+          | rewrite L; cbv beta ]
+      end
+  end.
